@@ -132,6 +132,49 @@ func withDuplicateDeps(g map[string][]string) []map[string][]string {
 	return res
 }
 
+// withDiamonds hangs a diamond (n -> n_u, n_v -> n_w) below every task of g. The upstream cycle detector
+// reports a false cycle when an edge is added ABOVE an existing diamond, i.e. whenever stages are not fed
+// to it in dependency order - so these graphs turn every ordering slip into a rejected acyclic graph.
+func withDiamonds(g map[string][]string) map[string][]string {
+	res := map[string][]string{}
+	for n, deps := range g {
+		res[n] = append([]string(nil), deps...)
+		res[n+"_u"] = []string{n}
+		res[n+"_v"] = []string{n}
+		res[n+"_w"] = []string{n + "_u", n + "_v"}
+	}
+	return res
+}
+
+// checkAccepted: the graph (in the order the runner would feed it) is accepted by the graph builder
+func checkAccepted(g map[string][]string) []Violation {
+	tasks := map[string]definition.TaskDef{}
+	var names []string
+	for t, d := range g {
+		tasks[t] = definition.TaskDef{Script: []string{"x"}, DependsOn: d}
+		names = append(names, t)
+	}
+	sort.Strings(names)
+	var vs []Violation
+	rev := make([]string, len(names))
+	for i := range names {
+		rev[len(names)-1-i] = names[i]
+	}
+	for _, input := range [][]string{names, rev} {
+		order := prunner.VerifSortTasks(tasks, input)
+		var stages []*scheduler.Stage
+		for _, t := range order {
+			stages = append(stages, &scheduler.Stage{Name: t, Task: task.FromCommands("x"), DependsOn: g[t]})
+		}
+		if _, err := scheduler.NewExecutionGraph(stages...); err != nil {
+			vs = append(vs, Violation{Property: "C02", Rule: "dag-accepted", Norm: "acyclic-graph-rejected",
+				Msg: fmt.Sprintf("acyclic graph {%s} is rejected by the graph builder when its tasks are fed in the runner's order %v: %v", graphString(g), order, err)})
+			break
+		}
+	}
+	return vs
+}
+
 // checkSortAndCycle: the reported task order must be a topological order, identical for every
 // permutation of the input, and feeding it to the upstream graph builder must not report a cycle.
 func checkSortAndCycle(g map[string][]string) []Violation {
